@@ -21,6 +21,7 @@ func init() {
 		rules.OrientationParity(p, r, "C09-orient")
 		rules.SelectorRenderingLossless(p, r, "C09-sel")
 		rules.SelectorTextSingleAssignment(p, r, "C09-sel-var")
+		rules.RenderersRangeOverOwnMap(p, r, "C09-str")
 		rules.CLIFileWriter(p, r, "C09-file")
 		r.Floor("C09-nodrop", 1)
 	})
